@@ -83,7 +83,7 @@ func init() {
 	Register(&Prop{ID: "C10",
 		Meta: Meta{Level: "exploration",
 			Rule:       "scripted plugin: valid handshake, then a byte script on its real stderr (text lines, [LEVEL] prefixes, panic traces, hclog JSON with key/values, JSON with ill-typed @message/@level/@timestamp, non-object JSON, JSON without level, lines of length bufsize-1/bufsize/bufsize+1/3*bufsize+5, CRLF, empty lines, NUL/high bytes, missing final newline) and on its stdout (0..300KB, lines up to 200KB), written in drawn chunk sizes through pipes of capacity 1B..64KB, PluginLogBufferSize drawn from {16,64,256,4096,default}; every (line class, sub-variant) x buffer size enumerated alone and after a panic line, plus seeded mixes of 1-12 lines. Oracle: the script finishes writing within 60s simulated (never blocked by back-pressure), no host panic, ClientConfig.Stderr received the same lines byte for byte and in order (terminators normalised to LF), and for every line shorter than the buffer the logger received one record whose level, message and key/values match a reference reading written from the property statement",
-			Exhaustive: "every line class and sub-variant x 5 log buffer sizes, alone and inside a panic trace; stdout volumes {0, 1 line, 64KB-1, 64KB+1, 200KB line, 300KB of short lines}"},
+			Exhaustive: "every line class and sub-variant x 5 log buffer sizes, alone and inside a panic trace, under a host logger at Trace and (subset) at Debug/Info/Warn/Error; stdout volumes {0, 1 line, 64KB-1, 64KB+1, 200KB line, 300KB of short lines}"},
 		Plan: func(tier string, seed uint64, stage int, prev []*h.Result) []*k.Spec {
 			if stage > 0 {
 				return nil
@@ -102,6 +102,16 @@ func init() {
 							}
 							for _, ctxl := range []string{"alone", "after-panic", "last-no-newline"} {
 								out = append(out, sp("C10", fmt.Sprintf("line/b%s/c%d.%d/%s", b, cl, sub, ctxl), seed, P("buf", b, "fixed", fmt.Sprintf("%d.%d", cl, sub), "ctx", ctxl)))
+							}
+						}
+					}
+					if b == "4096" || b == "64" {
+						// the same lines under a host logger that is not at Trace
+						for _, lv := range []string{"debug", "info", "warn", "error"} {
+							for _, fx := range []string{"0.0", "1.2", "1.4", "2.3", "2.4", "6.0", "6.1", "6.2", "6.3", "8.0"} {
+								for _, ctxl := range []string{"alone", "after-panic"} {
+									out = append(out, sp("C10", fmt.Sprintf("line/b%s/c%s/%s/host-%s", b, fx, ctxl, lv), seed, P("buf", b, "fixed", fx, "ctx", ctxl, "loglevel", lv)))
+								}
 							}
 						}
 					}
@@ -137,6 +147,9 @@ func init() {
 				u := func(tag string, n int) int { return int(k.H(sd, tag, 0) % uint64(n)) }
 				s := &k.Spec{Seed: sd, Params: P("buf", bufs[u("buf", 5)], "random", "1", "stdout", []string{"", "", "1line", "300kshort", "200kline", "64k+1"}[u("so", 6)])}
 				s.Faults = []string{"pipe.chunk,pipe.smallbuf", "pipe.chunk", "pipe.smallbuf", ""}[u("faults", 4)]
+				if u("lvon", 3) == 0 {
+					s.Params["loglevel"] = []string{"debug", "info", "warn", "error"}[u("lv", 4)]
+				}
 				if u("noise", 3) == 0 {
 					swarm(s, "client.go:Client.logStderr,log_entry.go")
 					if s.DelayClass == "big" {
@@ -250,12 +263,19 @@ func runC10(r *h.Run) {
 	}
 	st := r.InstallScript("/bin/scripted", sc)
 
+	// the host's logger may be more restrictive than the default (Trace): a
+	// line whose level it lets through must still get its record
+	logLevel := r.Spec.P("loglevel", "trace")
+	rank := map[string]int{"trace": 0, "debug": 1, "info": 2, "warn": 3, "error": 4}
+	if logLevel != "trace" {
+		ctx += " host-logger=" + logLevel
+	}
 	var logBuf, errBuf h.LockedBuf
 	cmd := simexec.Command("/bin/scripted")
 	cmd.SimName = "plugin"
 	cl := plugin.NewClient(&plugin.ClientConfig{
 		HandshakeConfig: plugins.Handshake, Plugins: h.PluginSet("netrpc", plugins.NewShared("host")), Cmd: cmd,
-		Logger:              hclog.New(&hclog.LoggerOptions{Name: "host", Level: hclog.Trace, Output: &logBuf, JSONFormat: true}),
+		Logger:              hclog.New(&hclog.LoggerOptions{Name: "host", Level: hclog.LevelFromString(logLevel), Output: &logBuf, JSONFormat: true}),
 		Stderr:              &errBuf,
 		PluginLogBufferSize: bufsize, StartTimeout: 20 * time.Second,
 	})
@@ -386,6 +406,14 @@ func runC10(r *h.Run) {
 				wantLevel = ""
 			} else if wantLevel == "" {
 				wantLevel = "debug"
+			}
+		}
+		if logLevel != "trace" {
+			if wantLevel == "" {
+				continue // level not specified: the logger may or may not let it through
+			}
+			if rank[wantLevel] < rank[logLevel] {
+				continue // below the host logger's level: no record expected
 			}
 		}
 		msg := l.Msg
